@@ -213,3 +213,73 @@ Proof. split; [vm_compute; reflexivity | discriminate]. Qed.
 Lemma remove_orig_zero_flag :
   bs_remove_orig 3 [0] = (3, true).
 Proof. vm_compute; reflexivity. Qed.
+
+Lemma remove_orig_refuted_ex :
+  exists s items, ~ (snd (bs_remove_orig s items) = true <-> fst (bs_remove_orig s items) <> s).
+Proof.
+  exists 3, [6]. destruct remove_orig_partial_flag as [E Hne]. rewrite E. simpl.
+  intros [_ H]. specialize (H Hne). discriminate.
+Qed.
+
+(* ---------- width: the model computes on unbounded N, the code on uint64 ----------
+   Every operation keeps a w-bit state w-bit when its arguments are w-bit (so no wrap-around can
+   occur for w = 64 and below), and on a w-bit state Go's `s &= ^f` (AND with the w-bit
+   complement of f) is the model's and-not. *)
+Definition fits (w x : N) : Prop := forall i, w <= i -> N.testbit x i = false.
+
+Lemma fits_lt w x : x < 2 ^ w -> fits w x.
+Proof.
+  intros H i Hi. destruct (N.eq_dec x 0) as [->|Hx]; [apply N.bits_0|].
+  apply N.bits_above_log2. apply N.log2_lt_pow2 in H; lia.
+Qed.
+
+Lemma lt_fits w x : fits w x -> x < 2 ^ w.
+Proof.
+  intros H. destruct (N.eq_dec x 0) as [->|Hx]; [apply N.neq_0_lt_0, N.pow_nonzero; lia|].
+  apply N.log2_lt_pow2; [lia|].
+  destruct (N.lt_ge_cases (N.log2 x) w) as [Hl|Hl]; [exact Hl|].
+  specialize (H (N.log2 x) Hl). rewrite N.bit_log2 in H by exact Hx. discriminate.
+Qed.
+
+Lemma make_fits w items : Forall (fits w) items -> fits w (bs_make items).
+Proof.
+  intros H i Hi. rewrite make_bits. apply not_true_is_false. intros E.
+  apply existsb_exists in E as [f [Hf Hb]]. rewrite Forall_forall in H.
+  rewrite (H f Hf i Hi) in Hb. discriminate.
+Qed.
+
+Lemma add_fits w s items : fits w s -> Forall (fits w) items -> fits w (fst (bs_add s items)).
+Proof.
+  intros Hs H i Hi. rewrite add_bits, (Hs i Hi). cbn [orb]. apply not_true_is_false. intros E.
+  apply existsb_exists in E as [f [Hf Hb]]. rewrite Forall_forall in H.
+  rewrite (H f Hf i Hi) in Hb. discriminate.
+Qed.
+
+Lemma remove_fits w s items : fits w s -> fits w (fst (bs_remove s items)).
+Proof. intros Hs i Hi. rewrite remove_bits, (Hs i Hi). reflexivity. Qed.
+
+Lemma maskof_fits w s f : fits w s -> fits w (bs_maskof s f).
+Proof. intros Hs i Hi. rewrite maskof_bits, (Hs i Hi). reflexivity. Qed.
+
+Lemma ldiff_is_land_complement w s f :
+  fits w s -> N.ldiff s f = N.land s (N.lxor (f mod 2 ^ w) (N.ones w)).
+Proof.
+  intros Hs. apply N.bits_inj. intro i.
+  rewrite N.ldiff_spec, N.land_spec, N.lxor_spec.
+  destruct (N.lt_ge_cases i w) as [Hi|Hi].
+  - rewrite N.mod_pow2_bits_low by exact Hi. rewrite N.ones_spec_low by exact Hi.
+    destruct (N.testbit s i), (N.testbit f i); reflexivity.
+  - rewrite (Hs i Hi). reflexivity.
+Qed.
+
+Lemma fits_iff_lt w x : fits w x <-> x < 2 ^ w.
+Proof. split; [apply lt_fits | apply fits_lt]. Qed.
+
+Lemma width_closed w s items f :
+  fits w s -> Forall (fits w) items ->
+  fits w (bs_make items) /\ fits w (fst (bs_add s items)) /\ fits w (fst (bs_remove s items))
+  /\ fits w (bs_maskof s f).
+Proof.
+  intros Hs Hi. split; [apply make_fits; exact Hi|]. split; [apply add_fits; assumption|].
+  split; [apply remove_fits; exact Hs | apply maskof_fits; exact Hs].
+Qed.
